@@ -169,6 +169,7 @@ for _p in ("C01", "C02", "C21", "C23", "C24", "C26"):
 for _p in ("C20", "C22", "C17", "C18", "C21", "C26"):
     _aug(_p, " + RP: every selection MC_Link checks (pairs, thorough triples, of 9 files x debug) assembled and linked by the real crate in every order and validated by TLC (MC_LinkRP)",
          " RP: MC_LinkRP prints each selection; the harness assembles the files and links the set in every order and bracketing; TV_Asm validates every step.")
+_aug("C25", " + RP: every string MC_SourceInfo checks (9 331) through the real SourceInfo (lc3v replay srcinfo)", " RP: the strings MC_SourceInfo enumerates are printed by TLC, put through the real SourceInfo and validated by TV_Tables.")
 _aug("C10", " + RP: every single placement MC_Interrupt explores (212 behaviours) replayed on the real simulator and validated (lc3v replay interrupt)",
      " RP: MC_InterruptRP prints every placement of one request (three priorities, two devices, every instruction boundary incl. inside the handler; program priority 0 and 4); each is performed on the real simulator with the model's program and handler and TV_Machine decides on IntGate and conformance.")
 _aug("C11", " + RP: 228 start states of MC_OsTraps run on the real simulator and validated (lc3v replay ostraps)", " RP: the start states of MC_OsTraps for one register fill and condition code (every string of up to two symbols, every character, every keyboard queue, real and virtual traps) are run step by step through the real OS on the real simulator; TV_Machine validates every step and evaluates the contract at the return.")
